@@ -1,10 +1,11 @@
 import MdsVerif.Proofs.Mdiff
+import MdsVerif.Proofs.MdiffCtx
 /-!
 # C13 — `mdiff.New`, `AddContext`, `Unify` produce correct chunks
 
 All statements are about `MdsVerif.Model.Mdiff` (the functions the driver streams `C13.*`
 execute) and are judged by `MdsVerif.Spec.Mdiff` (`ChunkOK`, `Ascending`, `NonAdjacent`, `patch`,
-`CtxOf`).
+`CtxOf`, `CtxBounded`).
 -/
 namespace MdsVerif.Props.C13
 open MdsVerif.Model.Edit MdsVerif.Model.Mdiff MdsVerif.Spec.Mdiff MdsVerif.Spec
@@ -209,6 +210,52 @@ example :
       fun d => (Diff.unify? d).toOption.map fun d => d.chunks)
       = some (some [⟨[⟨.emit, [3], []⟩, ⟨.copy, [], [3]⟩, ⟨.emit, [2], []⟩, ⟨.copy, [], [2]⟩],
           1, 3, 1, 5⟩]) := by decide
+
+/-- **unify_context_bound** — "at most `n` context lines added before and after each chunk", after
+`Unify`.  For chunks that are correct, separated by at least one left line, aligned, non-empty and
+free of Emits (every diff of `New`: `newChunks_ok`, `newChunks_aligned`), the chunks `UnifyChunks`
+returns for the result of `AddContext(n)` all satisfy `Spec.Mdiff.CtxBounded n`: in the edit list of
+a unified chunk every run of Emit edits at the start (before the first change) and at the end
+(after the last change) has at most `n` lines, and every run of Emit edits anywhere — in particular
+between two changes merged into one chunk — has at most `2n` lines.  (After `AddContext` alone the
+clause is `AllCtxOf n`, `addContext_ok`.)  Full strength: leading, trailing and interior bound. -/
+theorem unify_context_bound (L R : List α) (n : Nat) (cs cs' : List (Chunk α)) (hok : AllOK cs L R)
+    (hna : NonAdjacent cs) (hal : Aligned L R 1 1 cs)
+    (hne : ∀ c ∈ cs, c.edits ≠ [] ∧ ∀ e ∈ c.edits, e.op ≠ .emit)
+    (hctx : addContextChunks L R n cs = some cs') :
+    ∃ u, unifyChunks cs' = .ok u ∧ ∀ c ∈ u, CtxBounded n c.edits := by
+  obtain ⟨cs'', h1, h2⟩ := addContext_rel n cs hok
+  rw [hctx] at h1
+  cases h1
+  obtain ⟨u, u1, u2⟩ := MdsVerif.Proofs.MdiffCtx.unify_ctx hok hna hal hne h2
+  exact ⟨u, u1, fun c hc => MdsVerif.Proofs.MdiffCtx.ctxBoundedB_sound (u2 c hc)⟩
+
+/-- the same for the pipeline `New(L, R).AddContext(n).Unify()`, every `L`, `R`, `n` -/
+theorem pipeline_context_bound (L R : List α) (n : Nat) (hvalid : EditScript.Valid (editScript L R) L R) :
+    ∃ d1 d2, (new L R).addContext? n = some d1 ∧ d1.unify? = .ok d2 ∧
+      ∀ c ∈ d2.chunks, CtxBounded n c.edits := by
+  have r := newChunks_res (editScript L R) hvalid
+  obtain ⟨cs', h1, _⟩ := addContext_rel n (newChunks (editScript L R)) r.ok
+  obtain ⟨u, u1, u2⟩ := unify_context_bound L R n _ cs' r.ok r.na r.al
+    (fun c hc => ⟨edits_ne_nil_of_range (r.ok c hc) (r.nonempty c hc), r.noemit c hc⟩) h1
+  refine ⟨{ new L R with chunks := cs' }, { new L R with chunks := u }, ?_, ?_, u2⟩
+  · show (addContextChunks L R n (newChunks (editScript L R))).map _ = _
+    rw [h1]; rfl
+  · show (unifyChunks cs').map _ = _
+    rw [u1]; rfl
+
+set_option maxRecDepth 4000 in
+/-- non-vacuity: `n = 3` on the two Replace chunks five lines apart: one unified chunk with one line
+of leading context (only one exists), FIVE lines between the changes (> n, ≤ 2n) and one trailing;
+it passes the check for `n = 3` and fails it for `n = 2` (interior run 5 > 4) — and a chunk with four
+leading context lines fails for `n = 3` -/
+example :
+    (((new ([1, 2, 3, 4, 5, 6, 7, 8, 9] : List Nat) [1, 0, 3, 4, 5, 6, 7, 0, 9]).addContext? 3).map
+      fun d => (Diff.unify? d).toOption.map fun d => d.chunks.map fun c =>
+        (ctxBoundedB 3 c.edits, ctxBoundedB 2 c.edits)) = some (some [(true, false)]) ∧
+    ctxBoundedB 3 ([⟨.emit, [1, 2, 3, 4], []⟩, ⟨.drop, [5], []⟩] : List (Edit Nat)) = false ∧
+    ctxBoundedB 3 ([⟨.emit, [1, 2, 3], []⟩, ⟨.drop, [5], []⟩, ⟨.emit, [6, 7, 8, 9], []⟩] : List (Edit Nat)) = false := by
+  decide
 
 /-- **`Unify` after `AddContext(n)` after the chunking of `New`, for every valid edit script** (not
 only the one `EditScript` computes): the statement asked for as `unify_ok`, at full strength for
